@@ -695,6 +695,8 @@ fn check_max_directives(doc: &ExecutableDocument, max_directives: usize) -> Serv
         selection_set: &Positioned<SelectionSet>,
         limit_directives: usize,
     ) -> ServerResult<()> {
+        #[cfg(async_graphql_verif)]
+        crate::verif_hooks::bump(&crate::verif_hooks::MAX_DIRECTIVES);
         for selection in &selection_set.node.items {
             match &selection.node {
                 Selection::Field(field) => {
@@ -743,6 +745,8 @@ fn check_recursive_depth(doc: &ExecutableDocument, max_depth: usize) -> ServerRe
         current_depth: usize,
         max_depth: usize,
     ) -> ServerResult<()> {
+        #[cfg(async_graphql_verif)]
+        crate::verif_hooks::bump(&crate::verif_hooks::RECURSIVE_DEPTH);
         if current_depth > max_depth {
             return Err(ServerError::new(
                 format!(
